@@ -1,6 +1,7 @@
 package main
 
 import (
+	"os"
 	"fmt"
 	"go/ast"
 	"go/token"
@@ -331,8 +332,90 @@ func (e *Eng) heapGet(st *State, key string) string {
 		init = primed(init)
 	}
 	e.declOnce(fmt.Sprintf("(declare-const %s %s)", init, e.heapSort(key)))
+	if !noFrontier {
+		if ax := e.refAxiom(key, init, e.epochFrontier(st)); ax != "" {
+			e.declOnce("(assert " + ax + ")")
+		}
+	}
 	st.heap[key] = init
 	return init
+}
+
+// ---------- allocation frontier ----------
+// Allocations get strictly decreasing negative identities: a new allocation is smaller than
+// st.frontier, which is a lower bound of every reference that exists at that moment. Every
+// reference held in memory when a heap symbol is introduced (function entry, after a call
+// whose effects are unknown, at the head of a summarised loop) is >= the frontier of that
+// moment, so nothing read from memory can alias an object allocated later. This is how Go
+// behaves; it needs no separation hypothesis.
+
+var noFrontier = os.Getenv("GOVC_NO_FRONTIER") != ""
+
+func (st *State) front() string {
+	if st.frontier == "" {
+		return "0"
+	}
+	return st.frontier
+}
+
+// epochFrontier names the frontier that held when the heap symbols of st's epoch came into being.
+func (e *Eng) epochFrontier(st *State) string {
+	if st.epoch == 0 {
+		return "0"
+	}
+	fr := fmt.Sprintf("|FR%d|", st.epoch)
+	if st.suffix != "" {
+		fr = primed(fr)
+	}
+	e.declOnce(fmt.Sprintf("(declare-const %s Int)", fr))
+	return fr
+}
+
+// refAxiom: every reference stored in heap symbol h (of heap key key) is >= fr; "" if the
+// key does not hold references.
+func (e *Eng) refAxiom(key, h, fr string) string {
+	parts := strings.SplitN(key, ":", 2)
+	fam, rest, comp := parts[0], "", ""
+	if len(parts) > 1 {
+		rest = parts[1]
+	}
+	if i := strings.LastIndex(rest, "#"); i >= 0 {
+		comp = rest[i+1:]
+		rest = rest[:i]
+	}
+	isRefTag := func(tag string) bool {
+		if comp != "" {
+			return comp == "ref"
+		}
+		if i := strings.LastIndex(tag, ":"); i >= 0 {
+			tag = tag[i+1:]
+		}
+		return tag == "Ref" || strings.HasPrefix(tag, "Ref_")
+	}
+	switch fam {
+	case "E":
+		if !isRefTag(rest) {
+			return ""
+		}
+		return fmt.Sprintf("(forall ((x Int) (i %s)) (! (>= (select (select %s x) i) %s) :pattern ((select (select %s x) i))))", e.idxSort(), h, fr, h)
+	case "F", "P":
+		if !isRefTag(rest) {
+			return ""
+		}
+		return fmt.Sprintf("(forall ((x Int)) (! (>= (select %s x) %s) :pattern ((select %s x))))", h, fr, h)
+	case "G":
+		if !isRefTag(rest) {
+			return ""
+		}
+		return fmt.Sprintf("(>= %s %s)", h, fr)
+	case "M":
+		kv := strings.SplitN(rest, ":", 2)
+		if len(kv) < 2 || !isRefTag(kv[1]) {
+			return ""
+		}
+		return fmt.Sprintf("(forall ((x Int) (k %s)) (! (>= (select (select %s x) k) %s) :pattern ((select (select %s x) k))))", e.tagSort(kv[0]), h, fr, h)
+	}
+	return ""
 }
 
 func (e *Eng) heapSet(st *State, key, term string) {
@@ -342,7 +425,17 @@ func (e *Eng) heapSet(st *State, key, term string) {
 
 func (e *Eng) heapHavoc(st *State, key string) {
 	e.heapGet(st, key)
-	st.heap[key] = e.newSym("H_"+sanitize(key), e.heapSort(key))
+	h := e.newSym("H_"+sanitize(key), e.heapSort(key))
+	st.heap[key] = h
+	if !noFrontier {
+		if e.refAxiom(key, h, "0") != "" {
+			// whatever forgot this location may have allocated: the frontier can only have gone down
+			fr := e.newSym("fr", "Int")
+			st.assume("(<= " + fr + " " + st.front() + ")")
+			st.frontier = fr
+			st.assume(e.refAxiom(key, h, fr))
+		}
+	}
 }
 
 // havocAllHeaps forgets every heap location except the keys for which keep returns true.
@@ -551,6 +644,10 @@ func (e *Eng) symFor(name string, t types.Type, st *State) Val {
 func (e *Eng) alloc(st *State, name string) string {
 	r := e.newSym("new."+name, "Int")
 	st.assume("(< " + r + " 0)")
+	if !noFrontier {
+		st.assume("(< " + r + " " + st.front() + ")")
+		st.frontier = r
+	}
 	if len(st.allocs) > 0 {
 		st.assume("(distinct " + r + " " + strings.Join(st.allocs, " ") + ")")
 	}
